@@ -28,7 +28,7 @@ fn competitor_block(tag: usize, h: u64, rng: &mut Rng) -> BlockDesc {
         version: 1,
         prev: None,
         merkle: None,
-        time: 1_300_000_000 + (h as u32) * 600 + 17,
+        time: 1_300_000_000u32.wrapping_add((h as u32).wrapping_mul(600)).wrapping_add(17).max(1),
         bits: 0x1d00ffff,
         nonce: rng.next() as u32,
         auxpow: None,
